@@ -11,8 +11,9 @@ mkdir -p /tmp/sv
 git -C /repo worktree add -q --detach $SV/wt HEAD || exit 9
 trap 'git -C /repo worktree remove --force $SV/wt >/dev/null 2>&1; rm -rf $SV' EXIT
 demo() { # run demo with the worktree path substituted
-  sed "s#/tmp/seed/C[0-9]*/wt#$SV/wt#g" "$D/demo.sh" > $SV/demo.sh; chmod +x $SV/demo.sh
-  (cd "$D" && timeout 300 bash $SV/demo.sh $SV/wt >$SV/demo.out 2>&1); echo $?
+  rm -rf $SV/seed; cp -r "$D" $SV/seed
+  sed -i "s#/tmp/seed/C[0-9]*/wt#$SV/wt#g" $SV/seed/demo.sh; chmod +x $SV/seed/demo.sh
+  (cd $SV/seed && timeout 300 bash ./demo.sh $SV/wt >$SV/demo.out 2>&1); echo $?
 }
 clean_demo=$(demo)
 if ! git -C $SV/wt apply --check "$D/patch.diff" 2>/dev/null; then echo "RESULT patch-does-not-apply"; exit 0; fi
